@@ -221,12 +221,30 @@ _REJ = re.compile(r'<<\s*"REJECT",\s*(\d+),\s*(\d+),\s*"([^"]*)",\s*(.*)>>$', re
 
 
 MAX_CHUNK_BYTES = 24 << 20
+# numbers TLC's JSON reader cannot take (fractions, exponents, NaN / Infinity, integers beyond 32 bits)
+# become strings: the specification then rejects the event instead of TLC failing on the file.  The
+# drivers log such quantities as limb / hex records on purpose; a float or a huge integer in a trace is
+# always something the library produced unexpectedly.
+_BADNUM = re.compile(r'"(?:[^"\\]|\\.)*"|-?\d+\.\d+(?:[eE][+-]?\d+)?|-?\d+[eE][+-]?\d+|NaN|-?Infinity|-?\d{10,}')
+
+
+def _json_text(obj) -> str:
+    txt = json.dumps(obj, separators=(",", ":"))
+
+    def fix(m):
+        t = m.group(0)
+        if t[0] == '"':          # a JSON string: left alone (the alternation consumes it as a whole)
+            return t
+        if t.lstrip("-").isdigit() and -(1 << 31) < int(t) < (1 << 31):
+            return t
+        return '"<number ' + t + '>"'
+    return _BADNUM.sub(fix, txt)
 
 
 def _validate_one(module, cfg, traces, offset, env, timeout, heap):
     fd, path = tempfile.mkstemp(prefix="traces_", suffix=".json")
     with os.fdopen(fd, "w") as fh:
-        json.dump(traces, fh, separators=(",", ":"))
+        fh.write(_json_text(traces))
     try:
         e = {"TRACE_FILE": path}
         if env:
@@ -304,7 +322,7 @@ _BADROW = re.compile(r'<<\s*"BADROW",\s*(\d+),\s*"([^"]*)"\s*>>')
 def _table_one(module, rows, offset, timeout, heap):
     fd, path = tempfile.mkstemp(prefix="rows_", suffix=".json")
     with os.fdopen(fd, "w") as fh:
-        json.dump(rows, fh, separators=(",", ":"))
+        fh.write(_json_text(rows))
     try:
         r = run_tlc(module, "Table.cfg", workers=1, env={"TRACE_FILE": path}, timeout=timeout,
                     heap=heap)
